@@ -215,6 +215,7 @@ func init() {
 			dj := mustJSON(doc)
 			nt := false
 			for _, pol := range []mcrt.Policy{mcrt.Asc, mcrt.Desc} {
+				c.Begin(&Violation{Signature: "fatal crash of the process", Generator: "c19", Input: J{"doc": json.RawMessage(dj)}, Env: J{"policy": int(pol)}})
 				obs, sig, what := c19Exec(dj, pol)
 				if obs == nil {
 					c.Count("not_loadable", 1)
